@@ -127,6 +127,13 @@ class SxSet:
             # a set's iteration order is stable while it is not modified
             return [items[i] for i in cached[1]]
         if ctx is not None and ctx.opts.get("set_order") == "symbolic" and len(items) > 1:
+            ev = getattr(ctx, "set_events", 0)
+            ctx.set_events = ev + 1
+            site = ctx.opts.get("set_order_site")
+            if site is not None and site != ev:
+                # one-at-a-time exploration: only the chosen iteration event is permuted
+                self._order_cache = (len(items), tuple(range(len(items))), ctx)
+                return items
             # explorer-chosen iteration order: rotations and reversals (every
             # pair of elements occurs in both orders); all permutations <= 3
             n = len(items)
